@@ -12,10 +12,10 @@ pub mod c15;
 pub mod c16;
 pub mod c17;
 pub mod c18;
+pub mod replays;
 pub mod tseq;
 
 /// replayers for families other than table sequences
 pub fn replay_other(v: &serde_json::Value) -> i32 {
-    println!("replay description: {}", serde_json::to_string_pretty(&v["replay"]).unwrap_or_default());
-    0
+    replays::replay(v)
 }
